@@ -28,7 +28,12 @@ use kanidmd_lib::filter::{f_eq, f_or, f_pres, Filter, FilterInvalid};
 use kanidmd_lib::modify::{Modify, ModifyInvalid, ModifyList};
 use kanidmd_lib::prelude::*;
 use kanidmd_lib::server::identity::{AccessScope, IdentType, InternalRole};
-use kanidmd_lib::testkit::{setup_test, TestConfiguration};
+use kanidm_proto::scim_v1::{
+    ScimAttr, ScimEntry, ScimSyncRequest, ScimSyncRetentionMode, ScimSyncState, ScimValue, SCIM_SCHEMA_SYNC_ACCOUNT, SCIM_SCHEMA_SYNC_PERSON,
+};
+use kanidmd_lib::idm::scim::{GenerateScimSyncTokenEvent, ScimSyncUpdateEvent};
+use kanidmd_lib::idm::server::IdmServerTransaction;
+use kanidmd_lib::testkit::{setup_idm_test, setup_test, TestConfiguration};
 use kanidmd_lib::valueset;
 use kanidmd_lib::verif_hooks::c20 as hook;
 use serde_json::{json, Value as J};
@@ -456,7 +461,7 @@ impl World {
             v.sort();
             v
         };
-        assert!(builtins.len() > 40, "too few builtin entries: {}", builtins.len());
+        assert!(builtins.len() > 20, "too few builtin entries: {}", builtins.len());
         World { qs, ct, variant, group, user_a, user_b, person: tperson, tgroup, recycled, tomb, builtins, attrs, classes }
     }
 
@@ -1277,6 +1282,97 @@ fn scope_case(w: &World, k: u64) -> Option<Case> {
     all.into_iter().nth(k as usize)
 }
 
+/// Regression corpus (D4, repaired in /repo f03f00a): a sync agreement's request whose entry id
+/// lies in the reserved range used to create a builtin-classed stub through an internal create.
+/// Oracle only (the sync path is C50's model): whatever the answer, no new entry with a reserved
+/// uuid is stored; ids at and above the boundary are still accepted.
+async fn sync_stub_regression(rep: &mut Report) {
+    let (idms, _delayed, _audit) = setup_idm_test(TestConfiguration::default()).await;
+    let ct = duration_from_epoch_now();
+    let sync_uuid = wu(0x600);
+    let token = {
+        let mut w = idms.proxy_write(ct).await.expect("sync txn1");
+        let mut e: NewE = Entry::new();
+        e.add_ava(Attribute::Class, EntryClass::Object.to_value());
+        e.add_ava(Attribute::Class, EntryClass::SyncAccount.to_value());
+        e.add_ava(Attribute::Name, Value::new_iname("c20sync"));
+        e.add_ava(Attribute::Uuid, Value::Uuid(sync_uuid));
+        e.add_ava(Attribute::Description, Value::new_utf8s("c20 sync agreement"));
+        w.qs_write.internal_create(vec![e]).expect("sync account");
+        let admin = fetch(&mut w.qs_write, UUID_ADMIN).expect("admin");
+        let mut ident = Identity::from_impersonate_entry_readwrite(admin);
+        ident.origin = IdentType::Internal(InternalRole::System);
+        let gte = GenerateScimSyncTokenEvent { ident, target: sync_uuid, label: "c20".into() };
+        let t = w.scim_sync_generate_token(&gte, ct).expect("sync token");
+        w.commit().expect("sync commit");
+        t
+    };
+    let ids: Vec<(u128, &str)> = vec![
+        (0xffff_0000_9999, "d4-witness"),
+        (1, "low"),
+        (DNE, "does-not-exist"),
+        (ANON, "anonymous"),
+        (RESERVED_BOUND, "boundary"),
+        (RESERVED_BOUND + 1, "boundary+1"),
+        (wu(0x601).as_u128(), "dynamic"),
+    ];
+    for (id, label) in ids {
+        let mut w = idms.proxy_write(ct).await.expect("sync txn");
+        let ident = match w.validate_sync_client_auth_info_to_ident(kanidmd_lib::idm::authentication::ClientAuthInfo::new(kanidmd_lib::prelude::Source::Internal, None, Some(token.clone()), None), ct) {
+            Ok(i) => i,
+            Err(e) => {
+                rep.note(format!("sync-stub regression skipped: token not accepted ({e:?})"));
+                return;
+            }
+        };
+        let pre = snapshot(&mut w.qs_write);
+        let mut attrs = BTreeMap::new();
+        attrs.insert("name".to_string(), ScimValue::Simple(ScimAttr::String(format!("c20synced{label}").replace(['-', '+'], ""))));
+        attrs.insert("displayname".to_string(), ScimValue::Simple(ScimAttr::String("c20 synced".into())));
+        let changes = ScimSyncRequest {
+            from_state: ScimSyncState::Refresh,
+            to_state: ScimSyncState::Active { cookie: vec![1, 2, 3, 4] },
+            entries: vec![ScimEntry {
+                schemas: vec![SCIM_SCHEMA_SYNC_ACCOUNT.to_string(), SCIM_SCHEMA_SYNC_PERSON.to_string()],
+                id: Uuid::from_u128(id),
+                external_id: Some(format!("dn=c20{label},ou=people,dc=test")),
+                meta: None,
+                attrs,
+            }],
+            retain: ScimSyncRetentionMode::Ignore,
+        };
+        let r = w.scim_sync_apply(&ScimSyncUpdateEvent { ident }, &changes, ct);
+        let post = snapshot(&mut w.qs_write);
+        rep.count(&format!("sync-stub:{label}:{}", if r.is_ok() { "ok" } else { "refused" }));
+        let pre_ids: BTreeSet<u64> = pre.iter().map(|s| s.id).collect();
+        let input = json!({"regression": "sync-stub", "id": Uuid::from_u128(id).to_string()});
+        for q in &post {
+            if !pre_ids.contains(&q.id) && reserved(q.uuid) {
+                rep.fail(Failure {
+                    kind: "impl-vs-oracle".into(),
+                    class: "D4:sync-stub-in-reserved-range".into(),
+                    input: input.clone(),
+                    expected: "no new entry with a reserved uuid".into(),
+                    observed: format!("scim_sync_apply -> {r:?}; new entry {}", Uuid::from_u128(q.uuid)),
+                });
+            }
+        }
+        if reserved(id) && r.is_ok() {
+            rep.fail(Failure {
+                kind: "impl-vs-oracle".into(),
+                class: "D4:sync-stub-in-reserved-range".into(),
+                input: input.clone(),
+                expected: "a sync request naming a reserved id is refused".into(),
+                observed: format!("scim_sync_apply -> {r:?}"),
+            });
+        }
+        if !reserved(id) && r.is_err() {
+            rep.note(format!("sync-stub regression: non-reserved id {label} refused ({r:?})"));
+        }
+        rep.case(None);
+    }
+}
+
 const SCOPE_BASE: u64 = 10_000_000;
 
 fn case_json(seed: u64, world: u64, idx: u64) -> J {
@@ -1349,7 +1445,9 @@ async fn main() {
         return;
     }
 
-    let worlds = args.cases(5, 40);
+    sync_stub_regression(&mut rep).await;
+
+    let worlds = args.cases(5, 100);
     let per_world = if args.thorough() { 1500 } else { 700 };
     for wi in 0..worlds {
         let w = World::build(wi).await;
